@@ -45,8 +45,8 @@ CHECKS = {
         text='Partial claim. (i) idempotence: expr_simp(copy(expr_simp(e))) is structurally equal to expr_simp(e); (ii) order/nesting insensitivity: '
              'for permutations and re-associations of the operands of + * ^ & | nodes the outputs are structurally equal - both for all values of '
              'the constants (equality of two outputs whose constants are terms over the symbolic inputs is a z3 formula proved valid under the joint '
-             'path condition). The PYTHONHASHSEED clause is not addressed (CPython set/dict iteration across processes cannot be encoded).',
-        note='Trusted: z3, SInt proxy. Bounds: operand pool of 10, arity 2..4, widths 32/8 (quick) or 1..64 (thorough). Hash-seed independence outside the claim.',
+             'path condition). (iii) string-hash independence, partial: with hash(str) one unconstrained symbolic integer per distinct string in every hash() call written outside a __hash__ method (and in what such a call reaches), expr_simp yields one result over all paths on those integers, on operand families that differ only in an identifier name / segment selector / address and on a sample of the permutation bases; a counterexample is replayed in fresh interpreters under PYTHONHASHSEED 0..31. Iteration order of CPython sets across processes is not modelled (the simplifier iterates over no set; rendered instructions and state dumps are outside this clause).',
+        note='Trusted: z3, SInt proxy. Bounds: operand pool of 10, arity 2..4, widths 32/8 (quick) or 1..64 (thorough). Hash-seed clause: explicit hash() calls only; set iteration order outside the claim.',
         design='5/C13', engine='E2'),
     'C16': dict(
         level='model_checking',
